@@ -68,7 +68,7 @@ Filters ==
     \cup {F("VEVENT", FALSE, "ATTENDEE", FALSE, NoTm, "PARTSTAT", FALSE, tm) : tm \in Tms({"ACC", "accepted"})}
 
 Comp(kind, s, a) == [kind |-> kind, summary |-> s, att |-> a]
-EventVariants == {Comp("VEVENT", s, a) : s \in {"", "Meeting", "meeting notes", "NONASCII", "RECURRING", "ESCAPED", "FOLDED"},
+EventVariants == {Comp("VEVENT", s, a) : s \in {"", "Meeting", "meeting notes", "NONASCII", "RECURRING", "ESCAPED", "FOLDED", "EMPTYVAL"},
                                          a \in {"none", "plain", "accepted", "declined"}}
 Objects == {{e} : e \in EventVariants}
            \cup {{Comp("VTODO", "Meeting", "none")}}
